@@ -329,6 +329,20 @@ theorem energy_of_constant_strain_field (w : Q → K) (B : Q → R → ι → K)
         rw [mul_sum]
         exact sum_congr rfl fun s _ => by ring
 
+/-- `FluxClosed` from the gradient sums: when column `i` of `B` is, at every sample, a fixed combination of the two
+components of `∇N_i` (this is the layout read from the source: rows xx, yy, xy of a displacement dof hold `∂N/∂x`, `∂N/∂y`
+with constant coefficients), flux closure at `i` follows from `Σ_q w_q ∂N_i/∂x = 0` and `Σ_q w_q ∂N_i/∂y = 0` — proved for
+the interior nodes of TRI3 fans and SEG2 chains in `Props/C01Flux.lean` -/
+theorem fluxClosed_of_gradient_sums (w : Q → K) (B : Q → R → ι → K) (i : ι) (gx gy : Q → K) (α β : R → K)
+    (hB : ∀ q r, B q r i = α r * gx q + β r * gy q)
+    (hx : ∑ q, w q * gx q = 0) (hy : ∑ q, w q * gy q = 0) : FluxClosed w B i := by
+  intro r
+  have : ∀ q, w q * B q r i = α r * (w q * gx q) + β r * (w q * gy q) := by
+    intro q; rw [hB q r]; ring
+  simp_rw [this]
+  rw [sum_add_distrib, ← mul_sum, ← mul_sum, hx, hy]
+  ring
+
 end mesh
 
 /-! ### non-vacuity: one SEG2-like 2D triangle with the linear field u = (1 + 2x + 3y, 4 - x + 5y) -/
